@@ -111,6 +111,9 @@ def concretize(gen, pool, rnd, garbage=False):
                 cmds.append({"kind": "go", "line": rnd.choice(["go depth 2", "go depth 3", "go depth 5", "go movetime 300", "go", "go depth 4 movetime 2000"])})
         elif c == "fin":
             cmds.append({"kind": "wait", "line": "", "timeout": 12.0})
+        elif c == "position same":
+            last = [x for x in cmds if x.get("kind") == "position" and x.get("valid")]
+            cmds.append(dict(last[-1]) if last else pool.position_cmd("open"))
         elif c.startswith("position "):
             cmds.append(pool.position_cmd(c.split()[1]))
         elif c == "garbage":
@@ -120,6 +123,8 @@ def concretize(gen, pool, rnd, garbage=False):
                 cmds.append({"kind": "isready", "line": "isready"})
         elif c == "quit":
             cmds.append({"kind": "eof", "line": ""} if rnd.random() < 0.3 else {"kind": "quit", "line": "quit"})
+        elif c == "ucinewgame":
+            cmds.append({"kind": "ucinewgame", "line": "ucinewgame", "state": True})
         else:
             cmds.append({"kind": c, "line": c})
         i += 1
@@ -248,6 +253,8 @@ def check_uci(pid, tier, seed):
         ["position open", "go", "fin", "position open2", "ucinewgame", "go", "fin", "quit"],
         ["position open", "go", "ucinewgame", "position open", "go", "stop", "quit"],
         ["go", "go", "fin", "quit"], ["position term", "go", "isready", "position open", "go", "fin", "quit"],
+        ["position open", "go", "fin", "ucinewgame", "position same", "go", "fin", "quit"], ["position open", "ucinewgame", "position same", "go", "stop", "position same", "go", "fin", "quit"],
+        ["position open2", "go", "stop", "position same", "go", "fin", "ucinewgame", "position same", "isready", "go", "fin", "quit"],
         ["position term", "go", "ucinewgame", "position open", "go", "fin", "quit"], ["position term", "go", "stop", "ucinewgame", "go", "position open", "go", "fin", "quit"],
         ["position term", "go", "position open2", "ucinewgame", "position open", "go", "fin", "quit"],
         ["position open", "go", "isready", "isready", "stop", "stop", "go", "quit"],
